@@ -177,3 +177,7 @@ pub fn mutate(rg: &mut vmodel::gen::Rg, src: &str) -> String {
     }
     t.concat()
 }
+
+pub fn violation_json(kind: &str, derive: &str, src: &str, detail: &str) -> String {
+    serde_json::json!({"kind": kind, "input": {"derive": derive, "source": src, "rule": "fuzz"}, "actual": detail}).to_string()
+}
